@@ -25,7 +25,7 @@ from vt import nsio
 ID = 'C12'
 META = {
     'level_text': (
-        'Proof (Coq, 31 statements): perm_invariant_<op> theorems for ALL sequences satisfying the named distinctness '
+        'Proof (Coq, 34 statements): perm_invariant_<op> theorems for ALL sequences satisfying the named distinctness '
         'hypotheses and ALL permutations of each repeated field, about the Gallina models the other checks tie to '
         'the code; plus the property statement itself evaluated on the real implementation for every operation the '
         'property lists (original vs permuted storage order, canonical multiset outputs compared), plus the same '
@@ -36,13 +36,12 @@ META = {
         'map, bit-exact float step function), _extract_subsequences, split_note_sequence (hop and list form), '
         'split_note_sequence_on_time_changes, split_note_sequence_on_silence, PianorollSequence, DrumTrack, '
         'ChordProgression, Melody, Performance/MetricPerformance event lists (+ program/is_drum), quantize-then-extract '
-        'end to end, MIDI export glue (note_sequence_to_pretty_midi without drop_events_n_seconds_after_last_note). '
-        'PARTIAL theorem: apply_sustain_control_changes — full statement only when the pedal is never pressed; '
-        'otherwise everything except the new end times of notes of pedalled instruments and total_time '
-        '(perm_invariant_sustain_partial; the missing part needs C14\'s open refinement sustain_refines_spec). '
+        'end to end, apply_sustain_control_changes (same verdict, same notes INCLUDING the new end times, same '
+        'total_time; via C14\'s refinement sustain_refines_spec, the order independence of its specification and '
+        'total_time = max(old total_time, latest new end)), MIDI export glue (note_sequence_to_pretty_midi without '
+        'drop_events_n_seconds_after_last_note). No partial theorems remain. '
         'Implementation-side comparison ONLY (tested, not proved): sequence_to_pianoroll (numpy frame rolls), the '
-        'drop_events_n_seconds_after_last_note argument and pretty_midi internals of MIDI export, the end times '
-        'produced by sustain, NotePerformance. The theorems are about models; each model is tied to the code by its '
+        'drop_events_n_seconds_after_last_note argument and pretty_midi internals of MIDI export, NotePerformance. The theorems are about models; each model is tied to the code by its '
         'own property check (C01, C02, C03, C07, C10, C13, C14) and, for permutation behaviour, by the model side of '
         'this check.'),
 }
@@ -418,8 +417,18 @@ def gen_case(rng, op, max_notes=None):
     d = _distinct(d)
     total = d['total']
     if op == 'quantize_rel':
-        if rng.random() < 0.6:
+        r = rng.random()
+        if r < 0.5:
             d = _single_tempo(rng, d)
+        elif r < 0.75:
+            # tempo marks at different times whose values are equal or differ by a hair (round-off sized): a
+            # validation that tolerates the difference must not let the storage order pick the surviving one
+            q0 = rng.choice([60, 90, 120, 133]) << nsio.QPM_BITS
+            times = [0] + sorted(rng.sample(range(1, 40), rng.randint(1, 2)))
+            d['tempos'] = [[t * T, q0 - rng.choice([0, 0, 1, 100, 524, 1000])] for t in times]
+            rng.shuffle(d['tempos'])
+            if rng.random() < 0.5:
+                d['tsigs'] = []
         args = [rng.choice([1, 2, 4, 12])]
     elif op == 'quantize_abs':
         args = [rng.choice([1, 4, 10, 100])]
@@ -496,6 +505,13 @@ def corpus():
             'tsigs': [], 'ksigs': [], 'texts': [], 'ccs': [], 'bends': [], 'sects': [], 'total': 4 * T, 'meta': None}
     for s in range(4):
         out.append({'op': 'quantize_rel', 'input': {'seq': copy.deepcopy(base), 'args': [4], 'seed': s}})
+    # two tempo marks that differ by round-off (120 and 119.9995 qpm), later one stored first: rejected or
+    # accepted, but the same either way, and with the same surviving tempo
+    b1 = copy.deepcopy(base)
+    b1['tempos'] = [[20 * T, (120 << 20) - 524], [0, 120 << 20]]
+    b1['notes'] = [[60, 100, 250 * T + T // 4, 260 * T, 0, 0, 0, 0, 0, 0]]; b1['total'] = 260 * T
+    for s in range(4):
+        out.append({'op': 'quantize_rel', 'input': {'seq': copy.deepcopy(b1), 'args': [4], 'seed': s}})
     # F8: MIDI export with unsorted tempos
     b2 = copy.deepcopy(base)
     b2['tempos'] = [[8 * T, 60 << 20], [4 * T, 90 << 20], [0, 120 << 20]]
